@@ -140,4 +140,13 @@ Qed.
 Theorem session_output_builds rs s s' out : Forall (fun x : bool * tls_record => r_meta (snd x) <> []) rs ->
   C01SessionP.session_run C tbl parts keylog s rs = Ok (s', out) -> exists segs, build out = Ok segs.
 Proof. intros Hm H. apply build_total. exact (session_run_has_meta rs s s' out Hm H). Qed.
+
+(* ... and the conversation built reads back: C06_conversation with its premise has_meta discharged for what a session exports *)
+Theorem session_conversation rs s s' out : out <> [] -> Forall (fun x : bool * tls_record => r_meta (snd x) <> []) rs ->
+  C01SessionP.session_run C tbl parts keylog s rs = Ok (s', out) ->
+  exists segs, build out = Ok segs /\ Reader.std_reassemble segs = Some (side_stream false out, side_stream true out).
+Proof.
+  intros Hne Hm H. pose proof (session_run_has_meta rs s s' out Hm H) as Hh. destruct (build_total out Hh) as (segs & Hb).
+  exists segs. split; [exact Hb|]. exact (build_reassembles out segs Hne Hh Hb).
+Qed.
 End Entries.
